@@ -428,9 +428,21 @@ fn run_history(out: &mut impl Write, ctx: &mut Ctx, fakes: &[(usize, u32)], ops:
 fn finish_install(line: &mut String, ctx: &Ctx, inj: &InjectorPP, before: usize, res: Result<(), String>, evs: &[Event]) {
     let guards = inj.verif_guards();
     match res {
+        Ok(()) if guards.len() != before + 1 => {
+            // the installation was accepted but did not add exactly one guard: reported as it is
+            // (what the functions now return decides whether anything is wrong)
+            line.push_str(&format!(
+                " noguard ev={} n={} sl={} frame={} call={} live={}",
+                ev_str(evs),
+                guards.len() as i64 - before as i64,
+                ctx.slots(),
+                ctx.frame_ok() as u8,
+                ctx.calls(false),
+                shim::owned().len()
+            ));
+        }
         Ok(()) => {
             let g = guards.last().unwrap();
-            assert_eq!(guards.len(), before + 1);
             let tr = unsafe { arena::read(g.jit, g.jit_size) };
             line.push_str(&format!(
                 " ok ev={} g={:x}:{}:{:x}:{}:{} tr={} sl={} frame={} call={} live={}",
